@@ -2,6 +2,7 @@ package type1
 
 import (
 	"crypto/sha256"
+	"fmt"
 
 	"github.com/cloudflare/circl/group"
 	"github.com/cloudflare/circl/oprf"
@@ -33,6 +34,10 @@ func (s BasicPrivateTokenRequestState) ForTestsOnlyVerifier() *oprf.FinalizeData
 }
 
 func (s BasicPrivateTokenRequestState) FinalizeToken(tokenResponseEnc []byte) (tokens.Token, error) {
+	if len(tokenResponseEnc) < int(group.P384.Params().CompressedElementLength) {
+		return tokens.Token{}, fmt.Errorf("invalid token response encoding")
+	}
+
 	evaluatedElement := group.P384.NewElement()
 	err := evaluatedElement.UnmarshalBinary(tokenResponseEnc[:group.P384.Params().CompressedElementLength])
 	if err != nil {
